@@ -406,6 +406,47 @@ func vCtxTuple(ctx context.Context, keysLow []string) string {
 	return vTupleTerm(vals)
 }
 
+// vSinkTuple is what a downstream consumer does with the export context: it reads the values of the configured
+// keys — and then WRITES into the slices it got (redacting, normalising in place).  Metadata.Get documents that it
+// returns a copy, and a shard's export context is reused for every batch of its group: the write must not reach the
+// metadata that later batches of the group are sent with.
+func vSinkTuple(ctx context.Context, keysLow []string) string {
+	md := client.FromContext(ctx).Metadata
+	vals := make([][]string, len(keysLow))
+	for i, k := range keysLow {
+		vals[i] = md.Get(k)
+	}
+	t := vTupleTerm(vals)
+	for _, vs := range vals {
+		for i := range vs {
+			vs[i] = "c" // a valid pool value, so a leak shows as a WRONG tuple, not as a parse problem
+		}
+	}
+	return t
+}
+
+// vShutCtx: Shutdown is called with contexts of all kinds — background, already cancelled, deadline already
+// expired, deadline in 1 ms: "emitted by the time Shutdown returns" does not depend on the caller's patience.
+var vShutN atomic.Int32
+
+func vShutCtx() context.Context {
+	switch vShutN.Add(1) % 4 {
+	case 1:
+		ctx, cancel := context.WithCancel(context.Background())
+		cancel()
+		return ctx
+	case 2:
+		ctx, cancel := context.WithDeadline(context.Background(), time.Now().Add(-time.Second))
+		_ = cancel
+		return ctx
+	case 3:
+		ctx, cancel := context.WithTimeout(context.Background(), time.Millisecond)
+		_ = cancel
+		return ctx
+	}
+	return context.Background()
+}
+
 // vCtxExtra lists the keys of the export context's client metadata that are not configured keys: a batch is
 // sent with exactly its group's metadata, nothing else of the producer's metadata may leak into it.
 func vCtxExtra(ctx context.Context, keysLow []string) string {
@@ -555,7 +596,7 @@ func vRunOne[T any, P any](t *testing.T, out *vOut, sg vSignal[T, P], vc vCfg, s
 	var calls atomic.Int32
 	bp, consume, err := sg.newProc(vc.cfg, func(ctx context.Context, d T) error {
 		ir := sg.read(d)
-		sink.add(vExport{extra: vCtxExtra(ctx, vc.keysLow), tuple: vCtxTuple(ctx, vc.keysLow), payload: sg.term(ir), items: sg.items(ir), at: time.Now()})
+		sink.add(vExport{extra: vCtxExtra(ctx, vc.keysLow), tuple: vSinkTuple(ctx, vc.keysLow), payload: sg.term(ir), items: sg.items(ir), at: time.Now()})
 		// the downstream verdict: the processor only logs a failure and drops the batch; every export CALL is
 		// recorded, so the comparison with the model checks that a failing downstream changes nothing else
 		// (no retry, no second export of the items, no effect on later batches or on Consume results)
@@ -571,9 +612,13 @@ func vRunOne[T any, P any](t *testing.T, out *vOut, sg vSignal[T, P], vc vCfg, s
 	if err != nil {
 		t.Fatalf("cannot create the processor: %v", err)
 	}
-	if err := bp.Start(context.Background(), componenttest.NewNopHost()); err != nil {
+	// the context given to Start ends right after Start returned (the service's start-up context is not the
+	// component's lifetime)
+	sctx, scancel := context.WithCancel(context.Background())
+	if err := bp.Start(sctx, componenttest.NewNopHost()); err != nil {
 		t.Fatalf("start: %v", err)
 	}
+	scancel()
 	empty := func() T { var z P; return sg.build(z) }
 
 	var stTerms, results []string
@@ -625,7 +670,13 @@ func vRunOne[T any, P any](t *testing.T, out *vOut, sg vSignal[T, P], vc vCfg, s
 		stTerms = append(stTerms, "(SConsume "+op.mdTerm+" "+sg.term(op.p)+")")
 		tagged := sg.items(op.p)
 		tp := vTupleOf(op.md, vc.keysLow)
-		ctx := client.NewContext(context.Background(), client.Info{Metadata: client.NewMetadata(op.md)})
+		// the producer's own map and slices: it overwrites them once Consume has returned (a receiver reusing its
+		// header buffers); the processor must not be holding on to them
+		own := map[string][]string{}
+		for k, v := range op.md {
+			own[k] = append([]string{}, v...)
+		}
+		ctx := client.NewContext(context.Background(), client.Info{Metadata: client.NewMetadata(own)})
 		if len(op.md) == 0 {
 			ctx = context.Background() // a producer without any client.Info in its context
 			out.Stat(sg.name+".consume_without_client_info", 1)
@@ -640,6 +691,11 @@ func vRunOne[T any, P any](t *testing.T, out *vOut, sg vSignal[T, P], vc vCfg, s
 			fail("stuck", "Consume did not return within 20 s (the shard no longer takes items from its channel)")
 			results = append(results, "0")
 			continue
+		}
+		for _, v := range own { // Consume has returned: the producer reuses its buffers
+			for i := range v {
+				v[i] = "b"
+			}
 		}
 		wantRefuse := len(vc.keysLow) > 0 && limit > 0 && !isKnown(tp) && len(known) >= limit
 		if err != nil {
@@ -681,7 +737,7 @@ func vRunOne[T any, P any](t *testing.T, out *vOut, sg vSignal[T, P], vc vCfg, s
 		fail("stuck", "a shard did not take an item from its channel within 20 s")
 	}
 	done := make(chan struct{})
-	go func() { _ = bp.Shutdown(context.Background()); close(done) }()
+	go func() { _ = bp.Shutdown(vShutCtx()); close(done) }()
 	select {
 	case <-done:
 	case <-time.After(vDL(30 * time.Second)):
@@ -806,7 +862,7 @@ func vTimeoutCases[T any, P any](t *testing.T, out *vOut, rng *vRand, sg vSignal
 			sink := &vSink{perTuple: map[string]int{}}
 			bp, consume, err := sg.newProc(cfg, func(ctx context.Context, d T) error {
 				ir := sg.read(d)
-				sink.add(vExport{tuple: vCtxTuple(ctx, keysLow), items: sg.items(ir), at: time.Now()})
+				sink.add(vExport{tuple: vSinkTuple(ctx, keysLow), items: sg.items(ir), at: time.Now()})
 				return nil
 			})
 			if err != nil {
@@ -851,7 +907,7 @@ func vTimeoutCases[T any, P any](t *testing.T, out *vOut, rng *vRand, sg vSignal
 				out.Stat(fmt.Sprintf("%s.real_timer_flush_within_ms_%04d", sg.name, int(time.Since(t0)/time.Millisecond)/50*50+50), 1)
 			}
 			done := make(chan struct{})
-			go func() { _ = bp.Shutdown(context.Background()); close(done) }()
+			go func() { _ = bp.Shutdown(vShutCtx()); close(done) }()
 			select {
 			case <-done:
 			case <-time.After(vDL(20 * time.Second)):
@@ -897,7 +953,7 @@ func vConcurrentCases[T any, P any](t *testing.T, out *vOut, rng *vRand, sg vSig
 		sink := &vSink{perTuple: map[string]int{}}
 		bp, consume, err := sg.newProc(vc.cfg, func(ctx context.Context, d T) error {
 			ir := sg.read(d)
-			sink.add(vExport{extra: vCtxExtra(ctx, vc.keysLow), tuple: vCtxTuple(ctx, vc.keysLow), items: sg.items(ir), at: time.Now()})
+			sink.add(vExport{extra: vCtxExtra(ctx, vc.keysLow), tuple: vSinkTuple(ctx, vc.keysLow), items: sg.items(ir), at: time.Now()})
 			return nil
 		})
 		if err != nil {
@@ -954,7 +1010,7 @@ func vConcurrentCases[T any, P any](t *testing.T, out *vOut, rng *vRand, sg vSig
 			continue
 		}
 		done := make(chan struct{})
-		go func() { _ = bp.Shutdown(context.Background()); close(done) }()
+		go func() { _ = bp.Shutdown(vShutCtx()); close(done) }()
 		term := "(CValidate " + vc.term + " 0)%N"
 		select {
 		case <-done:
@@ -1076,7 +1132,7 @@ func vImmediateCases[T any, P any](t *testing.T, out *vOut, rng *vRand, sg vSign
 		sink := &vSink{perTuple: map[string]int{}}
 		bp, consume, err := sg.newProc(vc.cfg, func(ctx context.Context, d T) error {
 			ir := sg.read(d)
-			sink.add(vExport{extra: vCtxExtra(ctx, vc.keysLow), tuple: vCtxTuple(ctx, vc.keysLow), payload: sg.term(ir), items: sg.items(ir), at: time.Now()})
+			sink.add(vExport{extra: vCtxExtra(ctx, vc.keysLow), tuple: vSinkTuple(ctx, vc.keysLow), payload: sg.term(ir), items: sg.items(ir), at: time.Now()})
 			return nil
 		})
 		if err != nil {
@@ -1097,7 +1153,7 @@ func vImmediateCases[T any, P any](t *testing.T, out *vOut, rng *vRand, sg vSign
 				ctx := client.NewContext(context.Background(), client.Info{Metadata: client.NewMetadata(st.md)})
 				errs[i] = consume(ctx, st.data)
 			}
-			_ = bp.Shutdown(context.Background())
+			_ = bp.Shutdown(vShutCtx())
 			sink.mu.Lock()
 			snap = append([]vExport{}, sink.exports...)
 			sink.mu.Unlock()
@@ -1236,7 +1292,7 @@ func vBlockedCases[T any, P any](t *testing.T, out *vOut, rng *vRand, sg vSignal
 				<-gate // the shard's goroutine is held inside its first export
 			}
 			ir := sg.read(d)
-			sink.add(vExport{tuple: vCtxTuple(ctx, keysLow), payload: sg.term(ir), items: sg.items(ir), at: time.Now()})
+			sink.add(vExport{tuple: vSinkTuple(ctx, keysLow), payload: sg.term(ir), items: sg.items(ir), at: time.Now()})
 			return nil
 		})
 		if err != nil {
@@ -1305,7 +1361,7 @@ func vBlockedCases[T any, P any](t *testing.T, out *vOut, rng *vRand, sg vSignal
 		sdone := make(chan struct{})
 		var snap []vExport
 		shutdown := func() {
-			_ = bp.Shutdown(context.Background())
+			_ = bp.Shutdown(vShutCtx())
 			sink.mu.Lock()
 			snap = append([]vExport{}, sink.exports...)
 			sink.mu.Unlock()
@@ -1411,7 +1467,7 @@ func vAfterShutdownCases[T any, P any](t *testing.T, out *vOut, rng *vRand, sg v
 		sink := &vSink{perTuple: map[string]int{}}
 		bp, consume, err := sg.newProc(vc.cfg, func(ctx context.Context, d T) error {
 			ir := sg.read(d)
-			sink.add(vExport{tuple: vCtxTuple(ctx, vc.keysLow), payload: sg.term(ir), items: sg.items(ir), at: time.Now()})
+			sink.add(vExport{tuple: vSinkTuple(ctx, vc.keysLow), payload: sg.term(ir), items: sg.items(ir), at: time.Now()})
 			return nil
 		})
 		if err != nil {
@@ -1469,7 +1525,7 @@ func vAfterShutdownCases[T any, P any](t *testing.T, out *vOut, rng *vRand, sg v
 			continue
 		}
 		sd := make(chan struct{})
-		go func() { _ = bp.Shutdown(context.Background()); close(sd) }()
+		go func() { _ = bp.Shutdown(vShutCtx()); close(sd) }()
 		select {
 		case <-sd:
 		case <-time.After(vDL(30 * time.Second)):
@@ -1534,13 +1590,32 @@ func vConcurrentShutdownCases[T any, P any](t *testing.T, out *vOut, rng *vRand,
 		sink := &vSink{perTuple: map[string]int{}}
 		bp, consume, err := sg.newProc(vc.cfg, func(ctx context.Context, d T) error {
 			ir := sg.read(d)
-			sink.add(vExport{tuple: vCtxTuple(ctx, vc.keysLow), items: sg.items(ir), at: time.Now()})
+			sink.add(vExport{tuple: vSinkTuple(ctx, vc.keysLow), items: sg.items(ir), at: time.Now()})
 			return nil
 		})
 		if err != nil {
 			t.Fatal(err)
 		}
 		_ = bp.Start(context.Background(), componenttest.NewNopHost())
+		// Groups are created BEFORE the concurrent phase (one payload each, sequentially) and the producers use only
+		// these: a producer that creates a NEW group while Shutdown is in goroutines.Wait() makes the real code panic
+		// ("sync: WaitGroup is reused before previous Wait has returned" / "Add called concurrently with Wait" —
+		// observed on the unchanged tree, see NOTES.md); that is outside the property and must not make the check flaky.
+		var pool []map[string][]string
+		var acceptedTagged []string
+		g0 := &vGen{r: rng, next: 9000000}
+		for i := 0; i < 3; i++ {
+			md, _ := vGenMD(rng, fam)
+			pool = append(pool, md)
+			p := sg.gen(g0)
+			ctx := client.NewContext(context.Background(), client.Info{Metadata: client.NewMetadata(md)})
+			if err := consume(ctx, sg.build(p)); err == nil {
+				tp := vTupleOf(md, vc.keysLow)
+				for _, it := range sg.items(p) {
+					acceptedTagged = append(acceptedTagged, tp+"|"+it)
+				}
+			}
+		}
 		producers := runtime.NumCPU() / 2 // fewer calls in flight than a channel has room for: nobody blocks for ever
 		if producers > 8 {
 			producers = 8
@@ -1550,7 +1625,6 @@ func vConcurrentShutdownCases[T any, P any](t *testing.T, out *vOut, rng *vRand,
 		}
 		var stop atomic.Bool
 		var mu sync.Mutex
-		var acceptedTagged []string
 		var wg sync.WaitGroup
 		for pr := 0; pr < producers; pr++ {
 			type one struct {
@@ -1561,7 +1635,7 @@ func vConcurrentShutdownCases[T any, P any](t *testing.T, out *vOut, rng *vRand,
 			g := &vGen{r: rng, next: uint64(pr) * 100000}
 			var work []one
 			for i := 0; i < 40; i++ {
-				md, _ := vGenMD(rng, fam)
+				md := pool[rng.Intn(len(pool))]
 				p := sg.gen(g)
 				work = append(work, one{md, sg.build(p), sg.items(p)})
 			}
@@ -1589,7 +1663,7 @@ func vConcurrentShutdownCases[T any, P any](t *testing.T, out *vOut, rng *vRand,
 		stop.Store(true)
 		term := "(CValidate " + vc.term + " 0)%N"
 		fin := make(chan struct{})
-		go func() { _ = bp.Shutdown(context.Background()); wg.Wait(); close(fin) }()
+		go func() { _ = bp.Shutdown(vShutCtx()); wg.Wait(); close(fin) }()
 		select {
 		case <-fin:
 		case <-time.After(vDL(30 * time.Second)):
@@ -1633,6 +1707,143 @@ func vConcurrentShutdownCases[T any, P any](t *testing.T, out *vOut, rng *vRand,
 	}
 }
 
+// ---- (9) concurrent FIRST arrivals of one new metadata group (the stale-Load schedule, label LConsumeStale) ----
+// The lookup in multiShardBatcher.consume is lock-free; the creation happens under mb.lock.  The harness holds
+// mb.lock (a legal schedule: sync.Mutex is not FIFO), starts k producers that all deliver the first payload of the
+// SAME not yet seen group — they miss the lookup and queue up on the lock — and releases it.  The model
+// (bp_consume_locked: limit check, then LoadOrStore) and bp_groups_distinct say: ONE shard for the group.  Checked on
+// the implementation: the k one-item payloads (k = send_batch_size) are emitted as one batch at once (size trigger:
+// items of one group are never pending in two batches), the group counts once against the cardinality limit (a
+// further new group within the limit is accepted), every export of the group carries its tuple, conservation.
+func vStaleCases[T any, P any](t *testing.T, out *vOut, rng *vRand, sg vSignal[T, P], n int) {
+	for c := 0; c < n; c++ {
+		vFlush(out)
+		if vStuckN.Load() >= 5 {
+			continue
+		}
+		k := 2 + rng.Intn(2)
+		limit := 0
+		if rng.Bool() {
+			limit = 3 // k stale arrivals of ONE group must count once: two more groups fit
+		}
+		cfg := &Config{Timeout: vLongTimeout, SendBatchSize: uint32(k), SendBatchMaxSize: 0,
+			MetadataKeys: []string{"k1"}, MetadataCardinalityLimit: uint32(limit)}
+		keysLow := []string{"k1"}
+		cfgTerm := fmt.Sprintf("(HC 1000 false %d 0 [%s] %d)", k, vStr("k1"), limit)
+		term := "(CValidate " + cfgTerm + " 0)%N"
+		sink := &vSink{perTuple: map[string]int{}}
+		bp, consume, err := sg.newProc(cfg, func(ctx context.Context, d T) error {
+			ir := sg.read(d)
+			sink.add(vExport{tuple: vSinkTuple(ctx, keysLow), items: sg.items(ir), at: time.Now()})
+			return nil
+		})
+		if err != nil {
+			t.Fatal(err)
+		}
+		_ = bp.Start(context.Background(), componenttest.NewNopHost())
+		mb, ok := bp.batcher.(*multiShardBatcher[T])
+		if !ok {
+			t.Fatal("not a multi-shard batcher")
+		}
+		g := &vGen{r: rng}
+		mdA := map[string][]string{"k1": {vValPool[rng.Intn(3)]}}
+		tpA := vTupleOf(mdA, keysLow)
+		var want []string
+		var wg sync.WaitGroup
+		var refused atomic.Int32
+		mb.lock.Lock() // producers that miss the lookup now wait here
+		for i := 0; i < k; i++ {
+			p := sg.mk(g, 1)
+			for _, it := range sg.items(p) {
+				want = append(want, tpA+"|"+it)
+			}
+			d := sg.build(p)
+			wg.Add(1)
+			go func() {
+				defer wg.Done()
+				ctx := client.NewContext(context.Background(), client.Info{Metadata: client.NewMetadata(map[string][]string{"K1": {mdA["k1"][0]}})})
+				if err := consume(ctx, d); err != nil {
+					refused.Add(1)
+				}
+			}()
+		}
+		runtime.Gosched()
+		time.Sleep(5 * time.Millisecond)
+		mb.lock.Unlock()
+		pdone := make(chan struct{})
+		go func() { wg.Wait(); close(pdone) }()
+		select {
+		case <-pdone:
+		case <-time.After(vDL(20 * time.Second)):
+			vStuck()
+			out.Oracle("stuck", term, "concurrent first arrivals of one group: a Consume did not return within 20 s")
+			continue
+		}
+		out.Stat(sg.name+".stale_runs", 1)
+		if refused.Load() != 0 {
+			out.Oracle("cardinality", term, fmt.Sprintf("%d of %d concurrent first arrivals of ONE group were refused (limit %d)", refused.Load(), k, limit))
+		}
+		// size trigger: k = send_batch_size items of the group are in the processor: one batch, now
+		if !vWait(func() bool { return sink.count(tpA) >= k }, 3*time.Second) {
+			out.Oracle("size-trigger", term, fmt.Sprintf("%d one-item payloads of group %s arrived concurrently as the group's first (send_batch_size %d): after 3 s only %d items are emitted — items of one group are pending in more than one batch",
+				k, tpA, k, sink.count(tpA)))
+		}
+		// the group counts once: further new groups within the limit are accepted
+		for j := 1; j <= 2; j++ {
+			mdB := map[string][]string{"k1": {vValPool[3+j]}}
+			p := sg.mk(g, 1)
+			ctx := client.NewContext(context.Background(), client.Info{Metadata: client.NewMetadata(mdB)})
+			cdone := make(chan error, 1)
+			go func(d T) { cdone <- consume(ctx, d) }(sg.build(p))
+			select {
+			case err := <-cdone:
+				if err != nil {
+					out.Oracle("cardinality", term, fmt.Sprintf("group %d of %d allowed was refused (%v) after one group had arrived through %d concurrent first payloads: the group was counted more than once", j+1, limit, err, k))
+				} else {
+					for _, it := range sg.items(p) {
+						want = append(want, vTupleOf(mdB, keysLow)+"|"+it)
+					}
+				}
+			case <-time.After(vDL(20 * time.Second)):
+				vStuck()
+				out.Oracle("stuck", term, "Consume did not return within 20 s")
+			}
+		}
+		sd := make(chan struct{})
+		var snap []vExport
+		go func() {
+			_ = bp.Shutdown(vShutCtx())
+			sink.mu.Lock()
+			snap = append([]vExport{}, sink.exports...)
+			sink.mu.Unlock()
+			close(sd)
+		}()
+		select {
+		case <-sd:
+		case <-time.After(vDL(30 * time.Second)):
+			vStuck()
+			out.Oracle("stuck", term, "Shutdown did not return within 30 s")
+			continue
+		}
+		var got []string
+		batchesA := 0
+		for _, e := range snap {
+			if e.tuple == tpA {
+				batchesA++
+			}
+			for _, it := range e.items {
+				got = append(got, e.tuple+"|"+it)
+			}
+		}
+		sort.Strings(got)
+		sort.Strings(want)
+		if !vEqStrings(got, want) {
+			out.Oracle("conservation", term, "concurrent first arrivals of one group: "+vDiff(got, want))
+		}
+		out.Stat(fmt.Sprintf("%s.stale_batches_of_group_%d", sg.name, batchesA), 1)
+	}
+}
+
 func TestVerifC17(t *testing.T) {
 	out := vOpen()
 	defer out.Close()
@@ -1659,6 +1870,10 @@ func TestVerifC17(t *testing.T) {
 	vBlockedCases(t, out, vNewRand(1761), lg, vBudget(6, 6))
 	vBlockedCases(t, out, vNewRand(1762), tr, vBudget(6, 6))
 	vBlockedCases(t, out, vNewRand(1763), mt, vBudget(6, 6))
+
+	vStaleCases(t, out, vNewRand(1791), lg, vBudget(8, 6))
+	vStaleCases(t, out, vNewRand(1792), tr, vBudget(8, 6))
+	vStaleCases(t, out, vNewRand(1793), mt, vBudget(8, 6))
 
 	vAfterShutdownCases(t, out, vNewRand(1771), lg, vBudget(15, 6))
 	vAfterShutdownCases(t, out, vNewRand(1772), tr, vBudget(15, 6))
